@@ -291,6 +291,10 @@ pub fn enumerate(rec: &Recorded, cfg: &CrashCfg, local: &mut Local, stats: &mut 
                     local.nontrivial(&(rec.journal.len(), k, format!("{:?}", c.op), c.unflushed_before));
                     local.class("points_inside_multiop_call_with_unflushed_predecessor");
                 }
+                if matches!(c.op, Op::MakeReadOnly) {
+                    local.class("points_inside_make_read_only");
+                    local.nontrivial(&(rec.journal.len(), k, "make_read_only"));
+                }
                 if c.first_after_reopen_with_entries {
                     local.class("points_inside_first_call_after_reopen_with_unflushed_entries");
                 }
